@@ -17,6 +17,7 @@ import (
 	"encoding/binary"
 	"fmt"
 	"os"
+	"runtime"
 	"sort"
 	"strconv"
 	"strings"
@@ -504,7 +505,15 @@ func genHistory(g *common.Gen, r *common.Rand) {
 			if life >= 0 {
 				lt = strconv.FormatInt(life, 10)
 			}
-			g.Op("express %s %s %d %s @%d", label, common.NameText(final), b2i(cbp), lt, t)
+			cbpTok := b2i(cbp)
+			if r.Chance(1, 4) {
+				// MustBeFresh is set as well (tokens 2 / 3): it concerns caches on the way, never the
+				// application engine - an arriving Data that matches satisfies the Interest all the same
+				// (the Data of these histories carry no FreshnessPeriod)
+				cbpTok += 2
+				g.Stat("express-mustbefresh")
+			}
+			g.Op("express %s %s %d %s @%d", label, common.NameText(final), cbpTok, lt, t)
 			g.Stat("op-express")
 			g.Stat("express-" + kind)
 			if kind != "empty" {
@@ -535,6 +544,25 @@ func genHistory(g *common.Gen, r *common.Rand) {
 				name = uni(1, 1)
 			}
 			v := r.Intn(2)
+			if kind == "pending-name" && !dummyClock && r.Chance(1, 4) {
+				// while the Data is being delivered another goroutine asks for the same name again
+				xcbp := b2i(r.Chance(2, 5))
+				life := int64(r.Range(2000, 80000))
+				for fires[t+life+marginUs] {
+					life++
+				}
+				label := "i" + strconv.Itoa(nExpr)
+				nExpr++
+				g.Op("datax %s %s %d w%d %s %s %d %d @%d", common.NameText(name), common.Hex(digestOf(dataWire(name, v))), v, pickWrap(r),
+					label, common.NameText(name), xcbp, life, t)
+				g.Stat("op-datax")
+				fires[t+life+marginUs] = true
+				pend = append(pend, gPend{label, clone(name), clone(name), t + life + marginUs})
+				if t+life > maxDeadline {
+					maxDeadline = t + life
+				}
+				break
+			}
 			g.Op("data %s %s %d w%d @%d", common.NameText(name), common.Hex(digestOf(dataWire(name, v))), v, pickWrap(r), t)
 			g.Stat("op-data")
 			g.Stat("data-" + kind)
@@ -735,6 +763,9 @@ type hist struct {
 	lastHid   int
 	lastArgs  *ndn.InterestHandlerArgs
 	handlerOf map[int]bool
+	// datax: run once at the start of the next application callback (while the engine is in the middle
+	// of delivering a packet)
+	onCb func()
 }
 
 func (h *hist) rel(t time.Time) int64 { return t.Sub(h.start).Microseconds() }
@@ -828,6 +859,10 @@ func labelNum(l string) int {
 // callback records the result given to the Express callback of Interest `label`.
 func (h *hist) callback(label string) ndn.ExpressCallbackFunc {
 	return func(a ndn.ExpressCallbackArgs) {
+		if f := h.onCb; f != nil {
+			h.onCb = nil
+			f()
+		}
 		e := event{label: label, at: h.now()}
 		switch a.Result {
 		case ndn.InterestResultData:
@@ -893,8 +928,8 @@ func (h *hist) execOp(op string) string {
 		}
 		h.face.fail = f[0] == "expressf"
 		defer func() { h.face.fail, h.face.answer = false, nil }()
-		label, name, cbp := f[1], common.ParseNameText(f[2]), f[3] == "1"
-		cfg := &ndn.InterestConfig{CanBePrefix: cbp}
+		label, name, cbp := f[1], common.ParseNameText(f[2]), f[3] == "1" || f[3] == "3"
+		cfg := &ndn.InterestConfig{CanBePrefix: cbp, MustBeFresh: f[3] == "2" || f[3] == "3"}
 		if f[4] != "-" {
 			cfg.Lifetime = utils.IdPtr(time.Duration(common.Atoi(f[4])) * time.Microsecond)
 		}
@@ -935,6 +970,59 @@ func (h *hist) execOp(op string) string {
 			res = "feed-err"
 		} else {
 			res = "ok"
+		}
+	case "datax":
+		// datax <name> <digest> <variant> <w> <label> <xname> <cbp> <life>: a Data arrival; WHILE the
+		// first callback it triggers is running, another goroutine expresses Interest <label> for
+		// <xname> (an application thread that happens to ask at that moment).  The engine serialises
+		// the two: the Express takes effect once the Data has been dealt with - it is never lost.  If
+		// the Data triggers no callback the Interest is expressed right after it.
+		if len(f) != 9 {
+			return "pre=" + pre + " res=bad-op cb=-"
+		}
+		name, v := common.ParseNameText(f[1]), common.Atoi(f[3])
+		w := dataWire(name, v)
+		if common.Hex(digestOf(w)) != f[2] {
+			return "pre=" + pre + " res=bad-digest cb=-"
+		}
+		label, xname := f[5], common.ParseNameText(f[6])
+		cfg := &ndn.InterestConfig{CanBePrefix: f[7] == "1" || f[7] == "3", MustBeFresh: f[7] == "2" || f[7] == "3"}
+		if f[8] != "-" {
+			cfg.Lifetime = utils.IdPtr(time.Duration(common.Atoi(f[8])) * time.Microsecond)
+		}
+		it, err := spec.Spec{}.MakeInterest(xname, cfg, nil, nil)
+		if err != nil {
+			return "pre=" + pre + " res=make-err cb=-"
+		}
+		started := false
+		done := make(chan error, 1)
+		h.onCb = func() {
+			started = true
+			go func() { done <- h.eng.Express(it, h.callback(label)) }()
+			// no clock can be waited on here (a goroutine blocked on the engine's mutex keeps the
+			// bubble's clock still): yield until the other goroutine has run as far as it can
+			for i := 0; i < 20000; i++ {
+				runtime.Gosched()
+			}
+		}
+		ferr := h.face.FeedPacket(lpWrap(w, wrapMode(f[4]), false))
+		h.onCb = nil
+		var xerr error
+		if started {
+			xerr = <-done
+		} else {
+			xerr = h.eng.Express(it, h.callback(label))
+		}
+		tx := h.drainFace()
+		switch {
+		case ferr != nil:
+			res = "feed-err"
+		case xerr == nil && tx == 1:
+			res = "ok"
+		case xerr == nil:
+			res = "ok-tx" + strconv.Itoa(tx)
+		default:
+			res = "err"
 		}
 	case "expressp":
 		// Interest with ApplicationParameters, built and signed by the real MakeInterest; reports the
